@@ -43,7 +43,7 @@ func verifDeliver(op *FDOperator, vs [][]byte, name string) {
 	if op.do() {
 		n := verifNondetInt(name)
 		verifAssume(n >= 1)
-		verifAssume(n <= 1<<20)
+		verifAssume(n <= 4)
 		op.Inputs(vs)
 		op.InputAck(n)
 		op.done()
@@ -69,7 +69,7 @@ func verifStrandedFinal(c *connection) func() {
 //  3: OnConnect still running when the first data arrives
 //
 //verif:po
-//verif:bounds 2 deliveries (sizes symbolic >= 1), handler consumes any 1..Len per call, <= 3 task instances, state revisits <= 3; buffers summarised on length
+//verif:bounds 2 deliveries (sizes symbolic in [1,4]), handler consumes any 1..Len per call, <= 3 task instances, state revisits <= 3; buffers summarised on length
 //verif:param 0 3
 //verif:loop 40
 //verif:poloop 3
@@ -112,7 +112,7 @@ func verifHarness_C06_handoff(sc int) {
 			if op.do() {
 				n := verifNondetInt("chunk2")
 				verifAssume(n >= 1)
-				verifAssume(n <= 1<<20)
+				verifAssume(n <= 4)
 				op.Inputs(vs)
 				op.InputAck(n)
 				atomic.StoreInt32(&verifK.prepared, 1) // "everything was delivered before the hang-up"
